@@ -22,6 +22,7 @@
   result of rotating `0x000001` is `0x000100`).  The theorems below are about the repaired code.
 -/
 import Bnum.Lemmas.Shift
+import Bnum.Spec.Shift
 namespace Bnum.C05
 open Bnum Bnum.Shift
 
@@ -139,6 +140,8 @@ theorem strict_panic :
   · intro h; by_contra hc; rw [UI.strictShr_of_lt (by omega)] at h; cases h
   · intro h; by_contra hc; rw [II.strictShl_of_lt (by omega)] at h; cases h
   · intro h; by_contra hc; rw [II.strictShr_of_lt (by omega)] at h; cases h
+example : UI.strictShl 8 [0x81, 0x7f, 0x83] 24 = .panic ∧
+    UI.strictShl 8 [0x81, 0x7f, 0x83] 23 = .ok [0, 0, 0x80] := by decide
 
 theorem shl_shr_dbg :
     UI.shl true w a s = UI.strictShl w a s ∧ UI.shr true w a s = UI.strictShr w a s ∧
@@ -148,6 +151,8 @@ theorem shl_shr_rel :
     UI.shl false w a s = .ok (UI.wrappingShl w a s) ∧ UI.shr false w a s = .ok (UI.wrappingShr w a s) ∧
     II.shl false w a s = .ok (II.wrappingShl w a s) ∧ II.shr false w a s = .ok (II.wrappingShr w a s) :=
   ⟨rfl, rfl, rfl, rfl⟩
+example : UI.shl true 8 [0x81, 0x7f, 0x83] 25 = .panic ∧
+    UI.shl false 8 [0x81, 0x7f, 0x83] 25 = .ok [0, 0, 0x02] := by decide
 
 /-! ## "overflowing shifts set their flag exactly when s >= BITS" — value: the reduced amount -/
 
@@ -169,6 +174,8 @@ theorem i_overflowing_shr :
     II.overflowingShr w a s
       = (II.shrVal w a (effAmount (w * a.length) s), decide (w * a.length ≤ s)) :=
   II.overflowingShr_eq w a s
+example : UI.overflowingShl 8 [0x81, 0x7f, 0x83] 32 = ([0x81, 0x7f, 0x83], true) ∧
+    II.overflowingShr 8 [0x81, 0x7f, 0x83] 7 = ([0xff, 0x06, 0xff], false) := by decide
 
 /-- the reduced amount is always in range (so no internal function is ever called out of range),
     is `s` for `s < BITS`, and is `s mod BITS` when BITS is a power of two -/
@@ -244,7 +251,7 @@ theorem i_unbounded_shr (hw : 1 ≤ w) (hn : 1 ≤ n) (ha : WF w n a) :
     | true =>
       have : S w a < 0 := hneg.1 hN
       simp only [if_true, this]
-      exact ⟨WF_allOnes n, S_allOnes hw hn⟩
+      exact ⟨WF_allOnes w n, S_allOnes hw hn⟩
     | false =>
       have : ¬ S w a < 0 := fun h => by rw [hneg.2 h] at hN; cases hN
       simp only [Bool.false_eq_true, if_false, this]
@@ -283,8 +290,41 @@ example : WF 8 3 [0x81, 0x7f, 0x83] := by decide
 theorem i_rot (k : Nat) :
     II.rotateLeft w a k = UI.rotateLeft w a k ∧ II.rotateRight w a k = UI.rotateRight w a k :=
   ⟨rfl, rfl⟩
+example : II.rotateRight 8 [0x81, 0x7f, 0x83] 28 = [0xf8, 0x37, 0x18] := by decide
 
 /-- the case that the pre-fix code got wrong: 24 bits, `rotate_left(8)` -/
 theorem rotl_w8n3_by8 : UI.rotateLeft 8 [1, 0, 0] 8 = [0, 1, 0] := by decide
+
+/-! ## the executable Spec (Bnum/Spec/Shift.lean, used by the driver) is what the theorems say -/
+
+theorem spec_shl_unsigned (hw : 1 ≤ w) (ha : WF w n a) (hs : s < w * n) :
+    U w (UI.uncheckedShlInternal w a s) = Spec.Shift.shlVal (w * n) (U w a : Int) s := by
+  rw [(shl_spec hw ha hs).2]; unfold Spec.Shift.shlVal
+  have : ((U w a : Int) * 2 ^ s) = ((U w a * 2 ^ s : Nat) : Int) := by push_cast; rfl
+  rw [this, wrapU_natCast]; rfl
+
+theorem spec_shl_signed (hw : 1 ≤ w) (ha : WF w n a) (hs : s < w * n) :
+    U w (UI.uncheckedShlInternal w a s) = Spec.Shift.shlVal (w * n) (S w a) s :=
+  i_shl_spec hw ha hs
+
+theorem spec_shr_unsigned (hw : 1 ≤ w) (ha : WF w n a) (hs : s < w * n) :
+    U w (UI.uncheckedShrInternal w a s) = Spec.Shift.shrVal (w * n) (U w a : Int) s := by
+  rw [(u_shr_spec hw ha hs).2]; unfold Spec.Shift.shrVal
+  rw [Int.fdiv_eq_ediv_of_nonneg _ (by positivity)]
+  have : ((U w a : Int) / 2 ^ s) = ((U w a / 2 ^ s : Nat) : Int) := by push_cast; rfl
+  have hlt : U w a / 2 ^ s < M w n := Nat.lt_of_le_of_lt (Nat.div_le_self _ _) (U_lt ha)
+  rw [this, wrapU_natCast]; exact (Nat.mod_eq_of_lt hlt).symm
+
+theorem spec_shr_signed (hw : 1 ≤ w) (hn : 1 ≤ n) (ha : WF w n a) (hs : s < w * n) :
+    U w (II.shrVal w a s) = Spec.Shift.shrVal (w * n) (S w a) s := by
+  obtain ⟨h1, h2⟩ := i_shr_spec hw hn ha hs
+  unfold Spec.Shift.shrVal; rw [← h2, S_def, h1.1]
+  exact (wrapU_toInt (U_lt h1)).symm
+
+theorem spec_rotl (hw : 1 ≤ w) (hn : 1 ≤ n) (ha : WF w n a) (k : Nat) :
+    U w (UI.rotateLeft w a k) = Spec.Shift.rotl (w * n) (U w a) k := (rotl_spec hw hn ha k).2
+theorem spec_rotr (hw : 1 ≤ w) (hn : 1 ≤ n) (ha : WF w n a) (k : Nat) :
+    U w (UI.rotateRight w a k) = Spec.Shift.rotr (w * n) (U w a) k := (rotr_spec hw hn ha k).2
+example : WF 8 3 [0x81, 0x7f, 0x83] ∧ 13 < 8 * 3 := by decide
 
 end Bnum.C05
